@@ -167,6 +167,19 @@ func CaptureStart() {
 	os.Stdout = f
 }
 
+// CapturedAll returns everything written since CaptureStart, the runtime error report included.
+func CapturedAll() string {
+	if capFile == nil {
+		return ""
+	}
+	os.Stdout = capSaved
+	capFile.Seek(0, 0)
+	b, _ := io.ReadAll(capFile)
+	capFile.Close()
+	capFile = nil
+	return string(b)
+}
+
 // Captured returns what was written since CaptureStart, up to the interpreter's runtime error
 // report (which is not program output), and stops capturing.
 func Captured() string {
